@@ -2,8 +2,12 @@ package main
 
 import (
 	"encoding/json"
+	"go/token"
+	"go/types"
+
 	"flag"
 	"fmt"
+	"golang.org/x/tools/go/ssa"
 	"os"
 	"path/filepath"
 	"sort"
@@ -209,6 +213,18 @@ func cmdCheck(args []string) int {
 	}
 	c.g = g
 	// 2. generate
+	for _, sc := range pre.Shared {
+		for _, p := range sc.Props {
+			if p == prop {
+				for d, pp := range dirPkg {
+					if pp == sc.Pkg {
+						needDirs[d] = true
+					}
+				}
+			}
+		}
+	}
+	_ = needDirs
 	for _, k := range keys {
 		ct := g.specs.Contracts[k]
 		fn := g.findFunc(ct.Pkg, ct.Key)
@@ -234,6 +250,18 @@ func cmdCheck(args []string) int {
 		}()
 		c.applyKnownFindings(f)
 		c.fns = append(c.fns, f)
+	}
+	// 2b. permission discipline (decided by dataflow over SSA, not by the solvers)
+	for _, sc := range g.specs.Shared {
+		has := false
+		for _, p := range sc.Props {
+			if p == prop {
+				has = true
+			}
+		}
+		if has {
+			c.fns = append(c.fns, permScan(g, sc))
+		}
 	}
 	// 3. discharge
 	par := 14
@@ -607,4 +635,92 @@ func cmdSSA(args []string) int {
 		}
 	}
 	return 0
+}
+
+// permScan checks "shared atomic T.f": every access to field f of T in the package goes through sync/atomic.
+func permScan(g *Gen, sc SharedClause) *FnVC {
+	short := strings.TrimPrefix(sc.Pkg, modulePath+"/")
+	f := g.newFnVC(nil, nil, short+".perm")
+	f.genErr = "perm"
+	var bad []string
+	checked := 0
+	pkg := g.ssaPkgs[sc.Pkg]
+	var visit func(fn *ssa.Function)
+	seen := map[*ssa.Function]bool{}
+	visit = func(fn *ssa.Function) {
+		if fn == nil || seen[fn] {
+			return
+		}
+		seen[fn] = true
+		for _, b := range fn.Blocks {
+			for _, ins := range b.Instrs {
+				isField := func(v ssa.Value) bool {
+					fa, ok := v.(*ssa.FieldAddr)
+					if !ok {
+						return false
+					}
+					pt, ok := fa.X.Type().Underlying().(*types.Pointer)
+					if !ok {
+						return false
+					}
+					nt, ok := pt.Elem().(*types.Named)
+					if !ok || nt.Obj().Name() != sc.Type || nt.Obj().Pkg() == nil || nt.Obj().Pkg().Path() != sc.Pkg {
+						return false
+					}
+					return nt.Underlying().(*types.Struct).Field(fa.Field).Name() == sc.Field
+				}
+				switch x := ins.(type) {
+				case *ssa.UnOp:
+					if x.Op == token.MUL && isField(x.X) {
+						checked++
+						bad = append(bad, fmt.Sprintf("plain read in %s at %s", fn.Name(), g.fset.Position(x.Pos())))
+					}
+				case *ssa.Store:
+					if isField(x.Addr) {
+						checked++
+						bad = append(bad, fmt.Sprintf("plain write in %s at %s", fn.Name(), g.fset.Position(x.Pos())))
+					}
+				case *ssa.Call:
+					for _, a := range x.Call.Args {
+						if isField(a) {
+							checked++
+							cal := x.Call.StaticCallee()
+							if cal == nil || cal.Pkg == nil || cal.Pkg.Pkg.Path() != "sync/atomic" {
+								bad = append(bad, fmt.Sprintf("address passed to non-atomic function in %s at %s", fn.Name(), g.fset.Position(x.Pos())))
+							}
+						}
+					}
+				}
+			}
+		}
+		for _, a := range fn.AnonFuncs {
+			visit(a)
+		}
+	}
+	if pkg != nil {
+		for _, m := range pkg.Members {
+			switch x := m.(type) {
+			case *ssa.Function:
+				visit(x)
+			case *ssa.Type:
+				for _, t := range []types.Type{x.Type(), types.NewPointer(x.Type())} {
+					ms := g.prog.MethodSets.MethodSet(t)
+					for i := 0; i < ms.Len(); i++ {
+						visit(g.prog.MethodValue(ms.At(i)))
+					}
+				}
+			}
+		}
+	}
+	ob := &Obl{ID: 0, Fn: f.key, Kind: "perm.atomic", Text: fmt.Sprintf("every access to %s.%s goes through sync/atomic (%d access sites scanned)", sc.Type, sc.Field, checked), Cond: "true", Solver: "ssa-dataflow"}
+	if len(bad) == 0 {
+		ob.Status = "proved"
+	} else {
+		ob.Status = "failed"
+		sort.Strings(bad)
+		ob.Output = strings.Join(bad, "; ")
+		ob.ReplayLog = ob.Output
+	}
+	f.obls = append(f.obls, ob)
+	return f
 }
